@@ -88,11 +88,11 @@ class C19(Prop):
     lean_exe = "c19_driver"
     harness = "h_containers.c"
     theorems = ["EaselModel.Props.C19." + t for t in (
-        "keyhash_refines_partial", "keyhash_refines_cstrings", "keyhash_cstr_of_nulfree", "keyhash_never_faults_partial", "keyhash_refines_jenkins_partial", "keyhash_ops_partial", "keyhash_upsize", "keyhash_fields_in_range_partial", "jenkins_in_range",
+        "keyhash_refines_partial", "keyhash_refines_cstrings", "keyhash_refines_mixed", "keyhash_nul_store_answer", "keyhash_string_paths", "keyhash_dump", "keyhash_cstr_of_nulfree", "keyhash_never_faults_partial", "keyhash_refines_jenkins_partial", "keyhash_ops_partial", "keyhash_upsize", "keyhash_fields_in_range_partial", "jenkins_in_range",
         "keyhash_embedded_nul_counterexample", "spec_store", "spec_lookup", "spec_get",
-        "heap_history", "heap_insert", "heap_extract", "heap_extract_null", "heap_extract_null_unguarded_faults", "heap_sorts", "heap_drain", "heap_validate", "heap_nalloc_in_range",
-        "rb_insert", "rb_history", "rb_wf_iff", "rb_height", "rb_lookup", "rb_sorted_linked", "rb_linked_is_reverse_inorder",
-        "stack_history", "stack_history_shuffles", "stack_no_fault", "stack_push_pop", "stack_pop_empty", "stack_lifo", "stack_popAll_unfold", "stack_discardTopN", "stack_discardSelected",
+        "heap_history", "heap_insert", "heap_extract", "heap_extract_null", "heap_extract_null_unguarded_faults", "heap_sorts", "heap_drain", "heap_validate", "heap_nalloc_in_range", "heap_grow",
+        "rb_insert", "rb_history", "rb_wf_iff", "rb_height", "rb_lookup", "rb_sorted_linked", "rb_linked_is_reverse_inorder", "rb_lookup_history", "rb_pool_never_twice", "rb_ptr_lookup", "rb_convert_doubly_linked", "rb_convert_null", "rb_convert_passes_list_test", "rb_ops_history",
+        "stack_history", "stack_history_shuffles", "stack_no_fault", "stack_threads_atomic", "stack_push_pop", "stack_pop_empty", "stack_lifo", "stack_popAll_unfold", "stack_discardTopN", "stack_discardSelected",
         "stack_shuffle", "stack_convert2String", "stack_nalloc_in_range",
         "quicksort_sorts", "quicksort_unguarded_n0_faults")]
     claimed = True
@@ -151,6 +151,15 @@ class C19(Prop):
             {"name": "rb-pool", "sticky": 1,
              "ops": ["rb_new exp=0 pool=2", "rb_ins k=5,3,8,3,1,4", "rb_dump", "rb_lookup k=3,7", "rb_list", "rb_ins k=2,1", "rb_dump",
                      "rb_new exp=-3 pool=1", "rb_ins k=1,1,2", "rb_dump"]},
+            {"name": "rp-basic", "sticky": 1,
+             "ops": ["rp_new pool=0", "rp_convert", "rp_ins k=5,3,8,3,1,4,7,9,2,6", "rp_nodes", "rp_hash", "rp_lookup k=3,10,1", "rp_pool",
+                     "rp_convert", "rp_nodes", "rp_ltest", "rp_walk"]},
+            {"name": "rp-pool", "sticky": 1,
+             "ops": ["rp_new pool=3", "rp_ins k=1,2,3,4,5,6,7,8,9,10,5,11", "rp_pool", "rp_nodes", "rp_ins k=11,11,12", "rp_pool", "rp_convert", "rp_ltest", "rp_walk", "rp_nodes"]},
+            {"name": "kh-api", "sticky": 1,
+             "ops": ["kh_new size=3 kalloc=1 salloc=1", "kh_dump", "store key=6162", "store key=6163 str=1", "store key=616200 str=1", "lookup key=616200 str=1",
+                     "lookup key=6100", "lookup key=610062", "kh_dump", "store key=64", "store key=65", "store key=66", "store key=67", "store key=68", "store key=69",
+                     "store key=6a", "store key=6b", "kh_dump", "kh_sizes", "lookup key=6100", "lookup key=6b00ff str=1", "kh_clone", "kh_swap", "kh_dump", "kh_reuse", "kh_dump"]},
             {"name": "qsort-basic", "sticky": 0,
              "ops": ["qsort mode=asc data=5", "qsort mode=asc data=3,1,2", "qsort mode=desc data=1,1,1,1", "qsort mode=coarse data=9,1,17,2,10,3,-1"]},
         ]
@@ -183,7 +192,9 @@ class C19(Prop):
         if default:
             ops.append("kh_default")
         else:
-            size = rng.choice([1, 1, 2, 2, 4, 8, 16, 64, 128, 1 << rng.randrange(0, 17)])
+            # esl_keyhash_CreateCustom documents a power of two; the code masks with hashsize-1, which stays in range for ANY
+            # hashsize > 0 (some slots are then never used): the theorems hold for every size > 0, so those are generated too
+            size = rng.choice([1, 1, 2, 2, 3, 4, 5, 6, 7, 8, 12, 16, 64, 100, 128, 1 << rng.randrange(0, 17), rng.randrange(1, 1 << 16)])
             ops.append("kh_new size=%d kalloc=%d salloc=%d" % (size, rng.choice([1, 1, 2, 3, 7, 128]), rng.choice([1, 1, 2, 5, 64, 2048])))
         pool = []
         seen = set()
@@ -220,7 +231,7 @@ class C19(Prop):
                 else:
                     ops.append("num")
             elif r < 0.93:
-                ops.append(rng.choice(["getall", "num", "kh_sizes"]))
+                ops.append(rng.choice(["getall", "num", "kh_sizes", "kh_dump"]))
             elif r < 0.93 + p_clone:
                 ops.append("kh_clone")
                 pool2, seen2 = list(pool), set(seen)
@@ -243,8 +254,8 @@ class C19(Prop):
                     if k not in seen:
                         seen.add(k); pool.append(k)
             else:
-                ops.append(rng.choice(["getall", "num", "kh_sizes", "getall"]))
-        ops.append("getall"); ops.append("kh_sizes")
+                ops.append(rng.choice(["getall", "num", "kh_sizes", "getall", "kh_dump"]))
+        ops.append("getall"); ops.append("kh_sizes"); ops.append("kh_dump")
         # look every stored key up once more at the end, and a few absent ones
         for k in pool[-40:]:
             ops.append("lookup key=%s" % hx(k))
@@ -309,7 +320,9 @@ class C19(Prop):
                 n = rng.choice([1, 1, 1, 2, 3, 5, 10, rng.randrange(1, big)])
                 style = rng.random()
                 base = rng.randrange(-2000, 2000)
-                if style < 0.2:
+                if style < 0.12:
+                    ks = self.rb_keys(rng, n, present)
+                elif style < 0.2:
                     ks = list(range(base, base + n))
                 elif style < 0.4:
                     ks = list(range(base + n, base, -1))
@@ -332,6 +345,66 @@ class C19(Prop):
             else:
                 ops.append("rb_new exp=%d pool=%d" % (exp, pool)); present = []
         ops += ["rb_hash", "rb_dump" if len(present) < 3000 else "rb_hash", "rb_list"]
+        return ops
+
+    def rb_keys(self, rng, n, present=()):
+        """insertion orders: ascending / descending runs (only outer rotations), zig-zag and inward orders (inner rotations on
+        both sides), duplicate-heavy, random"""
+        style = rng.random()
+        base = rng.randrange(-2000, 2000)
+        if style < 0.15:
+            return list(range(base, base + n))
+        if style < 0.3:
+            return list(range(base + n, base, -1))
+        if style < 0.42:
+            lo, hi, out = base, base + n, []              # outside-in zig-zag: lo, hi, lo+1, hi-1, ...
+            while lo <= hi and len(out) < n:
+                out.append(lo); lo += 1
+                if len(out) < n: out.append(hi); hi -= 1
+            return out
+        if style < 0.54:
+            mid = base; out = []                          # inside-out zig-zag: mid, mid+1, mid-1, mid+2, ...
+            for j in range(n):
+                out.append(mid + (j + 1) // 2 if j % 2 else mid - j // 2)
+            return out
+        if style < 0.62:
+            step = rng.choice([2, 3, 5]); a = list(range(base, base + step * n, step))   # a comb, then the gaps (large side first or last)
+            b = [x + 1 for x in a]
+            if rng.random() < 0.5: b.reverse()
+            return (a + b)[:max(1, n)]
+        if style < 0.75:
+            return [rng.randrange(-20, 20) for _ in range(n)]
+        if style < 0.85 and present:
+            return [rng.choice(present) + rng.choice([-1, 0, 0, 1]) for _ in range(n)]
+        return [rng.randrange(-5000, 5000) for _ in range(n)]
+
+    def gen_rp(self, rng, nops, big):
+        """pointer-level red-black histories: every record (id = index in the model's store) with key, colour, parent, small,
+        large is compared; node supply from Create() or from pool blocks of 1..64 records"""
+        pool = rng.choice([0, 0, 1, 2, 3, 7, 64])
+        ops = ["rp_new pool=%d" % pool]
+        present = []
+        for _ in range(nops):
+            r = rng.random()
+            if r < 0.55:
+                n = rng.choice([1, 1, 2, 3, 5, 8, 9, 10, 16, 17, rng.randrange(1, big)])
+                ks = self.rb_keys(rng, n, present)
+                ops.append("rp_ins k=%s" % fmt_ints(ks)); present += ks
+                ops.append("rp_nodes" if len(present) < 120 and rng.random() < 0.8 else "rp_hash")
+            elif r < 0.72:
+                ks = [rng.choice(present) if present and rng.random() < 0.5 else rng.randrange(-5000, 5000) for _ in range(rng.randrange(1, 12))]
+                ops.append("rp_lookup k=%s" % fmt_ints(ks))
+            elif r < 0.8:
+                ops.append("rp_pool")
+            elif r < 0.9:
+                ops.append("rp_nodes" if len(present) < 400 else "rp_hash")
+            elif r < 0.96:
+                ops += ["rp_convert", "rp_nodes" if len(present) < 400 else "rp_hash", "rp_ltest", "rp_walk",
+                        "rp_new pool=%d" % pool]; present = []
+            else:
+                pool = rng.choice([0, 1, 2, 5, 64])
+                ops.append("rp_new pool=%d" % pool); present = []
+        ops += ["rp_hash", "rp_pool", "rp_convert", "rp_nodes" if len(present) < 1000 else "rp_hash", "rp_ltest", "rp_walk"]
         return ops
 
     def gen_stack(self, rng, nops, big):
@@ -426,6 +499,36 @@ class C19(Prop):
                 ops += ["lookup key=%s" % hx(k) for k in keys] + ["store key=%s" % hx(keys[-1]), "lookup key=%s" % hx(b"k%d" % n), "kh_clone", "kh_swap"]
                 ops += ["lookup key=%s" % hx(k) for k in keys[:3]] + ["store key=%s" % hx(b"k%d" % n), "getall", "kh_sizes"]
                 out.append({"name": "kh-grow-%d-%d" % (size, extra), "sticky": 1, "ops": ops})
+        # custom initial sizes incl. non powers of two: every growth crossing (3*size keys -> 8*size slots) twice over, with Reuse / Clone
+        # in between (the clone keeps growing on its own; the reused table keeps its grown size)
+        for size in (1, 2, 3, 5, 8):
+            n1 = 3 * size + 1; n2 = 3 * 8 * size + 1
+            keys = [("g%d" % i).encode() + bytes([rng.randrange(1, 256)]) for i in range(n2 + 2)]
+            ops = ["kh_new size=%d kalloc=%d salloc=%d" % (size, rng.choice([1, 2, 3]), rng.choice([1, 2, 7]))]
+            for i, k in enumerate(keys):
+                ops.append("store key=%s%s" % (hx(k), " str=1" if i % 5 == 4 else ""))
+                if i + 1 in (n1 - 1, n1, n2 - 1, n2):
+                    ops += ["kh_sizes", "kh_dump", "getall", "lookup key=%s" % hx(keys[0]), "lookup key=%s str=1" % hx(keys[i] + b"\0zz"), "lookup key=%s" % hx(keys[i] + b"\0zz")]
+                if i + 1 == n1:
+                    ops += ["kh_clone", "kh_swap", "store key=%s" % hx(keys[i]), "store key=%s" % hx(b"only-in-clone"), "kh_swap", "lookup key=%s" % hx(b"only-in-clone")]
+            ops += ["kh_reuse", "kh_dump", "kh_sizes"] + ["store key=%s" % hx(k) for k in keys[:n1 + 1]] + ["getall", "kh_dump", "kh_swap", "getall", "lookup key=%s" % hx(b"only-in-clone"), "kh_dump"]
+            out.append({"name": "kh-cross-%d" % size, "sticky": 1, "ops": ops})
+        # red-black: the four rotation cases and the recolouring that climbs, at depth >= 3, on both sides (pointer level + tree level)
+        for name, ks in (("asc", list(range(1, 33))), ("desc", list(range(32, 0, -1))),
+                         ("zig-out", [x for p in zip(range(1, 17), range(32, 16, -1)) for x in p]),
+                         ("zig-in", [16 + ((j + 1) // 2 if j % 2 else -(j // 2)) for j in range(32)]),
+                         ("comb-large", list(range(0, 40, 4)) + [1, 5, 9, 13, 17, 21, 25, 29, 33, 37, 38, 39, 34, 35, 30, 31, 2, 3]),
+                         ("comb-small", list(range(40, 0, -4)) + [39, 35, 31, 27, 23, 19, 15, 11, 7, 3, 2, 1, 6, 5, 10, 9, 38, 37]),
+                         ("dups", [5, 5, 3, 3, 8, 8, 5, 1, 1, 9, 9, 3, 4, 4, 7, 7, 2, 2, 6, 6, 5])):
+            rp = ["rp_new pool=%d" % rng.choice([0, 2, 5])]
+            rb = ["rb_new exp=0 pool=%d" % rng.choice([0, 3])]
+            for k in ks:
+                rp += ["rp_ins k=%d" % k, "rp_nodes"]
+                rb += ["rb_ins k=%d" % k, "rb_dump"]
+            rp += ["rp_lookup k=%s" % fmt_ints(sorted(set(ks)) + [0, 100, -1]), "rp_pool", "rp_convert", "rp_nodes", "rp_ltest", "rp_walk"]
+            rb += ["rb_lookup k=%s" % fmt_ints(sorted(set(ks)) + [0, 100, -1]), "rb_list"]
+            out.append({"name": "rp-%s" % name, "sticky": 1, "ops": rp})
+            out.append({"name": "rb-%s" % name, "sticky": 1, "ops": rb})
         for n in (0, 1, 2, 3):
             for mode in ("asc", "desc", "coarse"):
                 out.append({"name": "qs-%d-%s" % (n, mode), "sticky": 0, "ops": ["qsort mode=%s data=%s" % (mode, fmt_ints(self.int_data(rng, n)))]})
@@ -466,11 +569,14 @@ class C19(Prop):
         for c in range(n):
             add("rb%d" % c, self.gen_rb(rng, rng.choice([5, 20, 60]), 60 if quick else 300))
         for c in range(n):
+            add("rp%d" % c, self.gen_rp(rng, rng.choice([5, 20, 60]), 60 if quick else 300))
+        for c in range(n):
             add("stack%d" % c, self.gen_stack(rng, rng.choice([5, 15, 40]), big))
         for c in range(n // 2):
             add("qsort%d" % c, self.gen_qsort(rng, rng.choice([3, 10, 30]), big), sticky=0)
         if not quick:
             add("heap-long", ["heap_new max=0", "hins v=%s" % fmt_ints(self.int_data(rng, 100000)), "hvalidate", "hdrain"])
+            add("rp-long", ["rp_new pool=64", "rp_ins k=%s" % fmt_ints([rng.randrange(-10**6, 10**6) for _ in range(100000)]), "rp_hash", "rp_convert", "rp_ltest", "rp_hash"])
             add("rb-long", ["rb_new", "rb_ins k=%s" % fmt_ints([rng.randrange(-10**6, 10**6) for _ in range(100000)]), "rb_hash", "rb_list"])
             add("stack-long", ["st_new t=i", "push v=%s" % fmt_ints(self.int_data(rng, 100000)), "shuffle seed=7", "st_dump", "discardsel mode=even", "popall"])
             add("qsort-long", ["qsort mode=coarse data=%s" % fmt_ints(self.int_data(rng, 100000))], sticky=0)
@@ -488,6 +594,10 @@ class C19(Prop):
             # table / allocation sizes are tuning constants, not part of the abstract behaviour (a different initial size or
             # growth factor keeps the property): recorded as evidence (growth really happened), not compared
             return "ok sizes"
+        if line.startswith("ok nkeys="):
+            # esl_keyhash_Dump: the key count and the arena use are functions of the abstract content (compared); slot occupancy and
+            # allocation sizes depend on the hash function and on tuning constants (checked for consistency by the monitor)
+            return " ".join(line.split()[:3])
         return line
 
     def compare(self, ctx, case, impl_out, model_out):
@@ -542,6 +652,7 @@ class C19(Prop):
         keys2, index2 = None, None           # the other slot (a clone or the original it was cloned from)
         heap, hmax = [], False               # sorted multiset
         rb = set()
+        rp, rp_id2key, rp_list = set(), {}, None     # pointer-level tree: keys, record id -> key, (head, tail) after conversion
         st, st_ordered, stype = [], True, "i"
 
         def fail(i, msg):
@@ -561,8 +672,8 @@ class C19(Prop):
                 k = unhx(kv["key"])
                 if kv.get("str") == "1":
                     k = k.split(b"\0")[0]
-                elif 0 in k:
-                    has_nul = True
+                elif 0 in k and name == "store":
+                    has_nul = True               # only a Store by length of such a key is in the known region (keyhash_refines_mixed)
                 if name == "store":
                     if k in index:
                         exp = "edup %d" % index[k]
@@ -598,6 +709,88 @@ class C19(Prop):
                 else:
                     if l != "ok": return fail(i, "swap failed")
                     keys, index, keys2, index2 = keys2, index2, keys, index
+            elif name == "kh_dump":
+                try:
+                    d = dict(x.split("=") for x in w[1:]); d = {a: int(b) for a, b in d.items()}
+                except Exception:
+                    return fail(i, "unparsable Dump")
+                n = len(keys)
+                if d["nkeys"] != n: return fail(i, "%d keys were stored" % n)
+                if d["sn"] != sum(len(k) + 1 for k in keys) and not has_nul: return fail(i, "arena use is not the sum of key lengths + 1")
+                hs = d["hashsize"]
+                if not (hs >= 1 and 0 <= d["nempty"] <= hs and d["kalloc"] >= n and d["salloc"] >= d["sn"]): return fail(i, "inconsistent Dump numbers")
+                if d["size"] != 4 * hs + 8 * d["kalloc"] + d["salloc"]: return fail(i, "Sizeof is not the sum of the allocations")
+                if not (d["min"] * hs <= n <= d["max"] * hs and d["min"] <= d["max"] and d["max"] <= n): return fail(i, "slot occupancies do not add up to the key count")
+                if (d["nempty"] == hs) != (n == 0) or n > (hs - d["nempty"]) * d["max"]: return fail(i, "slot occupancies do not add up to the key count")
+            # ---------------- red-black, pointer level
+            elif name == "rp_new":
+                rp, rp_id2key, rp_list = set(), {}, None
+            elif name == "rp_ins":
+                if l == "bad-op": continue
+                ks = ints(kv["k"])
+                flags = [] if len(w) < 2 or w[1] == "-" else w[1].split(",")
+                if w[0] != "ok" or len(flags) != len(ks): return fail(i, "one answer per key expected")
+                for k, f in zip(ks, flags):
+                    if (f[0] == "d") != (k in rp): return fail(i, "key %d: %s" % (k, "already present: must be refused" if k in rp else "new: must be inserted"))
+                    if f[0] == "i":
+                        rid = int(f[1:])
+                        if rid in rp_id2key: return fail(i, "record %d handed out twice" % rid)
+                        rp.add(k); rp_id2key[rid] = k
+            elif name == "rp_lookup":
+                if l == "bad-op": continue
+                got = [] if len(w) < 2 else w[1].split(",")
+                for k, g in zip(ints(kv["k"]), got):
+                    if (g == "-") != (k not in rp): return fail(i, "lookup of %d" % k)
+                    if g != "-" and rp_id2key.get(int(g)) != k: return fail(i, "lookup of %d returned the record of another key" % k)
+            elif name == "rp_pool":
+                free = ints(l.split("free=")[1]) if "free=" in l else None
+                if free is None or len(set(free)) != len(free) or any(f in rp_id2key for f in free): return fail(i, "free list shares a record with the tree (or with itself)")
+            elif name == "rp_nodes":
+                try:
+                    root = w[1].split("=")[1]; recs = {}
+                    for x in w[3:]:
+                        f = x.split(":"); recs[int(f[0])] = (int(f[1]), f[2], f[3], f[4], f[5])
+                except Exception:
+                    return fail(i, "unparsable record dump")
+                if {r: v[0] for r, v in recs.items()} != rp_id2key: return fail(i, "records in the structure differ from the inserted ones")
+                if rp_list is None:
+                    def build(pid, parent):
+                        if pid == "-": return None
+                        k, c, pa, sm, lg = recs[int(pid)]
+                        if pa != parent: raise ValueError("record %s: parent pointer is %s, should be %s" % (pid, pa, parent))
+                        return (c, k, build(sm, pid), build(lg, pid))
+                    try:
+                        t = build(root, "-")
+                    except (ValueError, KeyError, RecursionError) as e:
+                        return fail(i, str(e) or "broken pointer structure")
+                    err, ks = check_rb(t)
+                    if err: return fail(i, err)
+                    if ks != sorted(rp): return fail(i, "tree keys differ from the inserted distinct keys")
+                else:
+                    # a doubly linked list: small = predecessor, large = successor in key order; both ends NULL
+                    order = sorted(recs, key=lambda r: recs[r][0])
+                    for j, r in enumerate(order):
+                        sm = str(order[j - 1]) if j > 0 else "-"
+                        lg = str(order[j + 1]) if j + 1 < len(order) else "-"
+                        if recs[r][3] != sm or recs[r][4] != lg: return fail(i, "record %d (key %d): small/large are %s/%s, sorted list needs %s/%s" % (r, recs[r][0], recs[r][3], recs[r][4], sm, lg))
+            elif name == "rp_hash":
+                if not (len(w) > 2 and w[2] == "n=%d" % len(rp)): return fail(i, "structure should hold %d records" % len(rp))
+            elif name == "rp_convert":
+                if l == "bad-op": continue
+                if not rp:
+                    if l != "fail": return fail(i, "empty tree: eslFAIL expected")
+                else:
+                    key2id = {k: r for r, k in rp_id2key.items()}
+                    exp = "ok head=%d tail=%d" % (key2id[max(rp)], key2id[min(rp)])
+                    if l != exp: return fail(i, "head/tail should be the records of the largest/smallest key: %s" % exp)
+                    rp_list = True
+            elif name == "rp_ltest":
+                if l != ("ok" if rp_list else "bad-op"): return fail(i, "linked_list_test must accept the converted tree")
+            elif name == "rp_walk":
+                if rp_list:
+                    key2id = {k: r for r, k in rp_id2key.items()}
+                    asc = [key2id[k] for k in sorted(rp)]
+                    if l != "ok desc=%s asc=%s" % (fmt_ints(asc[::-1]), fmt_ints(asc)): return fail(i, "not the records in key order (large->small, small->large)")
             # ---------------- heap
             elif name == "heap_new":
                 heap, hmax = [], kv.get("max") == "1"
